@@ -38,6 +38,7 @@ func randomScenario(rng *rand.Rand, id int) Scenario {
 		sc.CtoUs = 300_000
 		sc.MaxElUs = 0
 	}
+	withFault := http && rng.Intn(100) < 25      // transport faults injected through the proxy hook
 	withRetryAfter := http && rng.Intn(100) < 12 // whole seconds: few of them
 	length := 1 + rng.Intn(7)
 	stopAt := -1
@@ -59,6 +60,8 @@ func randomScenario(rng *rand.Rand, id int) Scenario {
 				it.Kind = "tmpnet"
 			case rng.Intn(100) < 4:
 				it.Kind = "close"
+			case withFault && rng.Intn(100) < 30:
+				it.Kind = pick(rng, []string{"tempnet", "tempnet", "permnet"})
 			case !last && rng.Intn(100) < 75:
 				it.Code = pick(rng, []int{429, 502, 503, 504})
 			default:
